@@ -27,6 +27,8 @@ SPEC = {
         "Sema.ClusterCompose.Cluster_tenant_isolation",
         "Sema.ClusterCompose.Cluster_sync_preserves", "Sema.ClusterCompose.Cluster_sync_exists",
         "Sema.ClusterCompose.Cluster_sync_add", "Sema.ClusterCompose.Cluster_sync_remove", "Sema.ClusterCompose.Cluster_sync_side",
+        # the chain Go source -> generated definition -> model -> specification closed: C17_tie composed with the specification
+        "Sema.C17.C17_tie_curate", "Sema.C17.C17_curate_generated",
     ],
     "trusted_base": [
         "SemaModel/ClusterCompose/Model.lean (the composed cluster model: per server a node database and a shard store, the operations of cluster/actions.go written over C13.owner, C15.distribute / overQuota, C16.key / scanPrefix, C17.updatePoints / deletePoints / searchPoints; C14's St / round for Sync) is tied to the code by a second correspondence run: the compiled composed model (`semadriver C17 cluster`) answers the op lines of go/cmd/c17/compose.go — 1..3 real in-process servers, every node configured with its own permutation of the server list, several tenants whose ids are prefixes of each other, create / insert / update / delete / get / drop through every node — and a dump of EVERY node (the records of its node database, every shard directory on its disk with its points) after every few calls; the abstract hash of the theorems is instantiated by the real one (score lines: xxhash.Sum64String(key + server) for every routed key and server); the shard uuids RPCCreateShard draws are read back and passed to the model; not in this stream: search (the main stream covers the merge), Sync (C14's harness), refused shard batches, failures",
